@@ -132,6 +132,26 @@ NOTES = {   # what happened on the FIRST trial of a change, and what was strengt
     'C18-12': "round 6. The listener's close context derived from the Listen context: no reconnection once that context has expired.",
     'C19-11': 'round 6. AvgConns counts unreachable nodes.',
     'C19-12': "round 6. The 'no other nodes' guard of Rebalance removed.",
+    'C01-13': "round 7. Keep-alive pooling for requests forwarded to another node (the pool is keyed by the endpoint id): after the endpoint's only upstream moved to a third node the entry node keeps writing to the old one. First trial: MISSED (injected views never changed within a cluster). Proxy harness op `view` (gossip caught up) and scenario moves.",
+    'C01-14': "round 7. client.Dialer builds the URL by string concatenation: endpoint ids with ? # % are folded into another endpoint. First trial: MISSED by C01 (its proxy harness builds the TCP URL itself) and by C07 (plain ids). Tunnel scenarios with such ids through the real Dialer / Upstream and decoy listeners on the ids they fold into: reported by C07's check (rule tunnel-wrong-endpoint).",
+    'C04-13': 'round 7. CompactLocal keeps the version of live entries newer than the last tombstone: receivers delete them with the marker.',
+    'C04-14': 'round 7. Syncer ignores endpoint updates of nodes that are not active (unreachable ones too).',
+    'C04-15': 'round 7. Sticky routing in LookupEndpoint without a status check.',
+    'C05-14': "round 7. applyDeltaEntry no longer discards deltas about the local node (a restarted node's own state overwritten by a peer's memory). C13's rule 'own state untouched by received packets' reports it; C05 and C02 run honest histories in which no peer is ahead of an owner.",
+    'C05-15': "round 7. shedSessions deregisters the shed connection from the cluster state itself, the handler's RemoveConn a second time. First trial: C05 MISSED (no shedding in its harness) and C16 / C19 only reported a broken tie because ONE harness of the package (rebalance, stress) no longer compiled against the changed addSession. Every check now builds only its own harness directories; C16's shedding scenario reports advertised {} / registered {e1: 1}.",
+    'C07-13': 'round 7. One pooled buffer shared by both copiers of a leg. First trial: MISSED (at most 1 MiB per direction, rarely both directions busy). 3 MiB each way at the same moment through every kind of exit (streams above 256 KiB are compared inside the harness and leave it as fingerprints).',
+    'C08-13': 'round 7. Timeout exemption widened from websockets to any Upgrade offer (h2c): first trial MISSED. Non-websocket upgrade offers in the timeout clusters.',
+    'C08-15': 'round 7. Auth middleware reads an access_token form parameter with FormValue and so consumes form bodies. First trial: MISSED (token clusters sent no form bodies). Form posts (urlencoded, multipart) through authenticated proxy ports: rule transparent-req.',
+    'C10-13': 'round 7. Manager keys its routing table by the lower-cased endpoint id while the permission check stays case sensitive.',
+    'C10-14': 'round 7. MultiTenantVerifier caches verified tokens keyed by the token alone (accepted under another tenant).',
+    'C10-15': 'round 7. Tenant auth inherits the default upstream keys.',
+    'C15-14': "round 7. endpointFromKey splits at every colon: the syncer's key parsing is C04's (cf. C04-5).",
+    'C16-15': 'round 7. Upstream server Shutdown returns early when the HTTP shutdown fails and skips the cancellation of the hijacked connections.',
+    'C19-14': 'round 7. Integer rewrite of the balance test truncates the threshold.',
+    'C19-15': 'round 7. De Morgan slip in the rebalance gating: the loop runs with threshold 0.',
+    'C20-13': 'round 7. Node.Copy aliases the live endpoints map when it is allocated but empty. First trial: MISSED (stress readers discarded their snapshots and no node ever had zero endpoints). Readers walk the snapshots they hold; drain run with a single flapping endpoint under the race detector: concurrent map iteration and map write.',
+    'C20-14': 'round 7. syncer.mu held while publishing to gossip: lock-order inversion with the gossip state mutex (cycle in the regenerated lock graph).',
+    'C20-15': 'round 7. Delta() dereferences a nil node state for digest entries ApplyDigest ignored.',
 }
 
 
